@@ -195,6 +195,21 @@ pub proof fn lemma_c08_injective(a: V1Addresses, b: V1Addresses)
 }
 
 // [props: C08 C15]
+/// the format-string literals of the v1 Display impl, as the pieces of the canonical line
+pub proof fn lemma_v1_format_literals()
+    ensures
+        seq![80u8, 82u8, 79u8, 88u8, 89u8, 32u8, 84u8, 67u8, 80u8, 52u8, 32u8] == b_proxy() + sp() + b_tcp4() + sp(),
+        seq![80u8, 82u8, 79u8, 88u8, 89u8, 32u8, 84u8, 67u8, 80u8, 54u8, 32u8] == b_proxy() + sp() + b_tcp6() + sp(),
+        seq![80u8, 82u8, 79u8, 88u8, 89u8, 32u8, 85u8, 78u8, 75u8, 78u8, 79u8, 87u8, 78u8, 13u8, 10u8] == b_proxy() + sp() + b_unknown() + b_crlf(),
+        seq![13u8, 10u8] == b_crlf(),
+        seq![32u8] == sp(),
+{
+    assert(seq![80u8, 82u8, 79u8, 88u8, 89u8, 32u8, 84u8, 67u8, 80u8, 52u8, 32u8] =~= b_proxy() + sp() + b_tcp4() + sp());
+    assert(seq![80u8, 82u8, 79u8, 88u8, 89u8, 32u8, 84u8, 67u8, 80u8, 54u8, 32u8] =~= b_proxy() + sp() + b_tcp6() + sp());
+    assert(seq![80u8, 82u8, 79u8, 88u8, 89u8, 32u8, 85u8, 78u8, 75u8, 78u8, 79u8, 87u8, 78u8, 13u8, 10u8] =~= b_proxy() + sp() + b_unknown() + b_crlf());
+}
+
+// [props: C08 C15]
 /// appending the canonical line piece by piece gives the canonical line (re-association only)
 #[verifier::spinoff_prover]
 pub proof fn lemma_display_onto(o: Seq<u8>, a: V1Addresses)
